@@ -64,6 +64,13 @@ def install_fake_s3(fake):
 
 # ---- running the implementation -----------------------------------------------------------------
 
+def doc_bytes(text):
+    """The bytes of a document given as text: in the encoding its XML declaration names (UTF-8 without one)."""
+    import re
+    m = re.match(r'<\?xml[^>]*encoding="([^"]+)"', text)
+    return text.encode(m.group(1) if m else 'utf-8')
+
+
 _FILES_DIR = None
 
 
@@ -94,17 +101,22 @@ def impl_collection(texts, allow, strict, via='strings', keys=None, page_size=2)
                 # tool would): a collection is built from what the files hold NOW
                 d = _files_dir()
                 paths = []
+                seen_text = {}
                 for i, t in enumerate(texts):
+                    if t in seen_text:
+                        paths.append(seen_text[t])          # the very same file listed again
+                        continue
                     p = os.path.join(d, f'f{i:03d}.mos.xml')
-                    with open(p, 'w', encoding='utf-8', newline='') as f:
-                        f.write(t)
+                    seen_text[t] = p
+                    with open(p, 'wb') as f:
+                        f.write(doc_bytes(t))
                     os.utime(p, (1000000000, 1000000000))
                     paths.append(p)
                 mc = MosCollection.from_files(paths, allow_incomplete=allow)
             elif via == 's3':
                 # key names are opaque: '+', '%xx' sequences, blanks and non-ASCII letters are part of the name
                 keys = keys or [f'prefix/k{i:03d}{["", "+a", "%25", "%2B b", " c", "é"][i % 6]}.mos.xml' for i in range(len(texts))]
-                objs = {k: t.encode('utf-8') for k, t in zip(keys, texts)}
+                objs = {k: doc_bytes(t) for k, t in zip(keys, texts)}
                 objs['prefix/ignored.txt'] = b'not a mos file'
                 install_fake_s3(FakeS3(objs, page_size=page_size))
                 mc = MosCollection.from_s3(bucket_name='bucket', prefix='prefix/', allow_incomplete=allow)
@@ -254,6 +266,18 @@ def run_c09(tier, seed):
         docs = [TJ.to_text(ro_tree)] + [TJ.to_text(m) for _, m in plan] + [TJ.to_text(B.ro_delete(message_id='99'))]
         for strict in (False, True):
             jobs.append(('fault-then-valid: ' + name, docs, False, strict, 'strings' if pi % 5 else 'files'))
+    # collections of exactly 63, 64, 65, 127, 128, 129 messages after the roCreate (batch sizes a loop might work in)
+    for nmsg in (63, 64, 65, 127, 128, 129):
+        docs_n = [TJ.to_text(B.ro_doc([B.story('A')], message_id='1'))]
+        docs_n += [TJ.to_text(B.story_append([B.story(f'N{k}')], message_id=str(10 + k))) for k in range(nmsg - 1)]
+        docs_n.append(TJ.to_text(B.ro_delete(message_id='9000')))
+        for strict in (False, True):
+            jobs.append((f'{nmsg} messages', docs_n, False, strict, 'strings' if strict else 'files'))
+    # the same document supplied twice (the same file listed twice, the same string twice): two messages
+    twice = [TJ.to_text(B.ro_doc([B.story('A', [B.item('a1')])], message_id='1')), TJ.to_text(B.story_append([B.story('T')], message_id='5')),
+             TJ.to_text(B.item_replace('A', 'ZZ', [B.item('n')], message_id='6'))]
+    for via in ('strings', 'files', 's3'):
+        jobs.append(('same document twice', [twice[0], twice[1], twice[1], twice[2], twice[2]], True, False, via))
     # one long collection: 140 messages of which 130 fail (every failure is reported, however many there are)
     long_docs = [TJ.to_text(B.ro_doc([B.story('A', [B.item('a1')])], message_id='1'))]
     for k in range(130):
@@ -397,6 +421,15 @@ def run_c10(tier, seed):
         ids = [m.message_id for m in sorted(shuffled)]
         oc.evaluations += 1
         oc.in_domain += 1
+        want = sorted(m.message_id for m in objs)
+        ops_ok = ([m.message_id for m in sorted(shuffled, reverse=True)] == want[::-1] and max(shuffled).message_id == want[-1]
+                  and min(shuffled).message_id == want[0]
+                  and all((a > b) == (a.message_id > b.message_id) and (a >= b) == (a.message_id >= b.message_id)
+                          and (a <= b) == (a.message_id <= b.message_id) and (a < b) == (a.message_id < b.message_id)
+                          for a in objs[:6] for b in objs[:6]))
+        if not ops_ok:
+            oc.failing.append({'kind': 'collection-perm', 'docs': docs, 'via': 'sorted(MosFile)', 'label': f'hist seed={h["seed"]} (comparison operators)',
+                               'spec': '<, <=, >, >=, max, min and reverse sorting of MosFile objects follow the numeric message ID', 'impl': {'ids': ids}})
         if ids != sorted(m.message_id for m in objs):
             oc.failing.append({'kind': 'collection-perm', 'docs': docs, 'via': 'sorted(MosFile)', 'label': f'hist seed={h["seed"]}',
                                'spec': 'sorted([MosFile…]) orders by numeric message ID', 'impl': {'ids': ids}})
@@ -443,6 +476,28 @@ def run_c10(tier, seed):
         if o['err'] is not None or o['reader_ids'] != [11, 12, 13]:
             oc.failing.append({'kind': 'collection-perm', 'docs': pdocs, 'via': 'files', 'keys': None, 'label': f'equal-sized documents, same file names, perm={perm}',
                                'spec': 'readers in ascending numeric message-ID order for every ordering of the inputs', 'impl': {'err': o['err'], 'reader_ids': o['reader_ids']}})
+    # MosFile objects of related classes: a roReplace (a subclass of the roCreate's class) listed before a lower-ID roCreate
+    rr_objs = [impl.load(TJ.to_text(B.ro_replace([B.story('X')], message_id='100'))), impl.load(TJ.to_text(B.ro_doc([B.story('A')], message_id='9'))),
+               impl.load(TJ.to_text(B.ro_replace([], message_id='10'))), impl.load(TJ.to_text(B.story_append([], message_id='1000')))]
+    for perm in itertools.permutations(range(4)):
+        got = [m.message_id for m in sorted([rr_objs[i] for i in perm])]
+        oc.evaluations += 1
+        oc.in_domain += 1
+        if got != [9, 10, 100, 1000] or max(rr_objs[i] for i in perm).message_id != 1000:
+            oc.failing.append({'kind': 'collection-perm', 'docs': [str(rr_objs[i]) for i in perm], 'via': 'sorted(MosFile)', 'label': f'roReplace/roCreate objects perm={perm}',
+                               'spec': 'sorted([MosFile…]) orders by numeric message ID', 'impl': {'ids': got}})
+    # 2100 files supplied in descending and in shuffled order
+    nfiles = 2100
+    fdocs = [TJ.to_text(B.ro_doc([], message_id='1'))] + [TJ.to_text(B.story_append([B.story(f'N{i}')], message_id=str(i))) for i in range(2, nfiles + 1)]
+    for label, order in (('descending', list(reversed(range(nfiles)))), ('shuffled', rng.sample(range(nfiles), nfiles))):
+        o = impl_collection([fdocs[i] for i in order], True, False, via='files')
+        oc.evaluations += 1
+        oc.in_domain += 1
+        oc.count('many-files')
+        if o['err'] is not None or o['reader_ids'] != list(range(2, nfiles + 1)):
+            oc.failing.append({'kind': 'collection-perm', 'docs': [f'({nfiles} generated documents, {label})'], 'via': 'files-many', 'keys': None,
+                               'label': f'{nfiles} files supplied {label}', 'spec': 'readers in ascending numeric message-ID order, however many files',
+                               'impl': {'err': o['err'], 'first_out_of_order': next((a for a, b in zip(o['reader_ids'], range(2, nfiles + 1)) if a != b), None)}})
     # more than one S3 listing block: 1100 objects whose keys list lexicographically (1, 10, 100, 1000, 1001, ... 11, 110 ...)
     many = list(range(2, 1101))
     mdocs = {1: TJ.to_text(B.ro_doc([], message_id='1'))}
@@ -592,7 +647,9 @@ def c11_lists(tier):
                             # all-same: every message carries one message ID (documents of one kind are then byte-identical)
                             mid = '8' if idmode == 'all-same' else str(8 + 3 * i)
                             if k == 'C':
-                                t = TJ.to_text(B.ro_doc([B.story('A')], message_id=mid, ro_id=rid))
+                                t = TJ.to_text(B.ro_doc([B.story('A')], message_id=mid, ro_id=rid, slug=['RO slug', None, 'RO slug'][i % 3]))
+                                if i % 3 == 2:
+                                    t = t.replace('<roSlug>RO slug</roSlug>', '', 1)          # a roCreate without any roSlug
                                 if idmode == 'first-create-completed' and 'roCreate' not in ''.join(docs):
                                     # a roCreate document that was completed and saved earlier is still a roCreate
                                     t = t.replace('</mos>', '<mosromgrmeta><roDelete><roID>x</roID></roDelete></mosromgrmeta></mos>')
@@ -728,6 +785,29 @@ def run_c11(tier, seed):
     finally:
         os.chdir(cwd0)
         shutil.rmtree(tmp, ignore_errors=True)
+    # the same lists as S3 objects found with prefix None, '' and a real prefix
+    for k, (c, d) in enumerate(zip(cases, default)):
+        if k % 9 or not c['docs']:
+            continue
+        for prefix, keypfx in ((None, ''), ('', ''), ('pfx/', 'pfx/'), ('pfx/sub', 'pfx/sub-')):
+            objs = {f'{keypfx}{j:03d}.mos.xml': doc_bytes(t) for j, t in enumerate(c['docs'])}
+            install_fake_s3(FakeS3(objs, page_size=2))
+            impl.apply_cfg(impl.cfg_for(''.join(c['docs']) + repr(prefix)))
+            try:
+                with warnings.catch_warnings():
+                    warnings.simplefilter('ignore')
+                    from mosromgr.moscollection import MosCollection
+                    mc = MosCollection.from_s3(bucket_name='b', prefix=prefix, allow_incomplete=c['allow'])
+                so = {'err': None, 'ro_msg_id': mc.ro.message_id, 'reader_ids': [mr.message_id for mr in mc.mos_readers],
+                      'reader_types': [mr.mos_type.__name__ for mr in mc.mos_readers], 'ro_type': type(mc.ro).__name__}
+            except Exception as e:  # noqa: BLE001
+                so = {'err': impl.err_name(e), 'ro_msg_id': None, 'reader_ids': []}
+            oc.evaluations += 1
+            oc.in_domain += 1
+            oc.count('as-s3')
+            if so != d:
+                oc.failing.append({'kind': 'validate', 'docs': c['docs'], 'allow_incomplete': c['allow'], 'label': c['label'] + f' (as S3 objects, prefix={prefix!r})',
+                                   'spec': 'the same list found in a bucket is accepted / rejected like the list of strings', 'impl': {'s3': so, 'strings': d}})
     run_stage_checks(oc, 'C11', tier, seed)
     oc.exhaustive = True
     oc.extra['interpreters'] = ['default', 'python -O (fresh subprocess, sys.flags.optimize == 1 checked)']
